@@ -250,6 +250,33 @@ def gen_consts():
     return changed
 
 
+def gen_src():
+    """Regenerate coq/gen/Src_*.v from /repo with tools/c2coq.py (harness/c2coq/*.json name the C functions).
+    Returns (changed topics, {topic: [(function, reason)] for functions that could not be translated})."""
+    sys.path.insert(0, os.path.join(VERIF, "tools"))
+    import c2coq
+    gd = os.path.join(COQ, "gen")
+    os.makedirs(gd, exist_ok=True)
+    changed, problems = [], {}
+    with Lock("src"):
+        for sp in sorted(glob.glob(os.path.join(VERIF, "harness", "c2coq", "*.json"))):
+            name = os.path.splitext(os.path.basename(sp))[0]
+            spec = json.load(open(sp))
+            try:
+                text, probs = c2coq.translate_spec(REPO, spec)
+            except RuntimeError as e:
+                raise BrokenInput("c2coq: %s" % e)
+            if probs:
+                problems[name] = probs
+            dst = os.path.join(gd, "Src_%s.v" % name)
+            old = open(dst).read() if os.path.exists(dst) else None
+            if old != text:
+                with open(dst, "w") as f:
+                    f.write(text)
+                changed.append(name)
+    return changed, problems
+
+
 def coq_project():
     """(Re)generate _CoqProject and the coq_makefile Makefile when the file list changes."""
     vs = sorted([os.path.relpath(p, COQ) for p in glob.glob(os.path.join(COQ, "*.v"))] +
@@ -313,28 +340,43 @@ def grep_gate():
     return bad
 
 
+def prop_files(pid):
+    """Property-theorem files of a property: Properties_<pid>.v and, when present, PropertiesSrc_<pid>.v
+    (obligations that tie model functions to the Gallina text regenerated from the C source)."""
+    fs = ["Properties_%s" % pid]
+    if os.path.exists(os.path.join(COQ, "PropertiesSrc_%s.v" % pid)):
+        fs.append("PropertiesSrc_%s" % pid)
+    return fs
+
+
 def property_theorems(pid):
-    p = os.path.join(COQ, "Properties_%s.v" % pid)
-    txt = strip_coq_comments(open(p).read())
-    return [(k, n) for k, n in THM_RE.findall(txt)]
+    res = []
+    for f in prop_files(pid):
+        txt = strip_coq_comments(open(os.path.join(COQ, f + ".v")).read())
+        res += [(k, n) for k, n in THM_RE.findall(txt)]
+    return res
 
 
 def print_assumptions(pid):
-    """Compile Properties_<pid>.v once more into build/ to capture its `Print Assumptions` output."""
-    src = os.path.join(COQ, "Properties_%s.v" % pid)
-    vo = os.path.join(COQ, "Properties_%s.vo" % pid)
-    cache = os.path.join(BUILD, "assum", pid + ".txt")
-    os.makedirs(os.path.dirname(cache), exist_ok=True)
-    if os.path.exists(cache) and os.path.exists(vo) and os.path.getmtime(cache) >= os.path.getmtime(vo) \
-            and os.path.getmtime(cache) >= os.path.getmtime(src):
-        return open(cache).read()
-    tmpvo = os.path.join(BUILD, "assum", "Properties_%s.vo" % pid)
-    rc, out = sh(["coqc", "-q", "-Q", ".", "Verif", "-w", "-notation-overridden,-deprecated",
-                  "-o", tmpvo, "Properties_%s.v" % pid], cwd=COQ, timeout=900)
-    if rc == 0:
-        with open(cache, "w") as f:
-            f.write(out)
-    return out
+    """Compile the property file(s) once more into build/ to capture their `Print Assumptions` output."""
+    outs = []
+    for base in prop_files(pid):
+        src = os.path.join(COQ, base + ".v")
+        vo = os.path.join(COQ, base + ".vo")
+        cache = os.path.join(BUILD, "assum", base + ".txt")
+        os.makedirs(os.path.dirname(cache), exist_ok=True)
+        if os.path.exists(cache) and os.path.exists(vo) and os.path.getmtime(cache) >= os.path.getmtime(vo) \
+                and os.path.getmtime(cache) >= os.path.getmtime(src):
+            outs.append(open(cache).read())
+            continue
+        tmpvo = os.path.join(BUILD, "assum", base + ".vo")
+        rc, out = sh(["coqc", "-q", "-Q", ".", "Verif", "-w", "-notation-overridden,-deprecated",
+                      "-o", tmpvo, base + ".v"], cwd=COQ, timeout=900)
+        if rc == 0:
+            with open(cache, "w") as f:
+                f.write(out)
+        outs.append(out)
+    return "\n".join(outs)
 
 
 def parse_assumptions(out):
